@@ -25,6 +25,9 @@ extern "C" time_t time(time_t* t) {
 // op `handler 1`: a notification handler that does what frontends do inside it - session-level API calls on the session the
 // message is about (status, option, state label, current schema); `handler 0` removes it.  Never calls
 // set_notification_handler itself (that takes the lock Service::Notify holds).
+// the steady clock of the ascii composer's tap window is virtual too (hook 19b65ff): op `tick <ms>` advances it, so that
+// Shift / Control taps are deterministic (always inside the window unless the script says otherwise)
+namespace rime { extern long long verif_ascii_clock_ms; }
 static RimeApi* g_api = nullptr;
 static long g_handler_calls = 0;
 static void on_message(void*, RimeSessionId sid, const char* type, const char* value) {
@@ -57,6 +60,7 @@ int main(int argc, char** argv) {
   Env env;
   if (!env.start_with_staging(argv[1], argv[2], argv[3])) return 3;
   RimeApi* api = env.api;
+  rime::verif_ascii_clock_ms = 0;
   std::ifstream in(argv[4]);
   std::map<int, RimeSessionId> real;       // logical -> last real id
   std::map<int, bool> created;             // logical currently believed live by the script
@@ -83,6 +87,13 @@ int main(int argc, char** argv) {
       long d;
       ls >> d;
       g_fake_now += d;
+      std::cout << lineno << "|" << lg << "|" << op << "|-|0|unit\n";
+      continue;
+    }
+    if (op == "tick") {
+      long long ms = 0;
+      ls >> ms;
+      rime::verif_ascii_clock_ms += ms;
       std::cout << lineno << "|" << lg << "|" << op << "|-|0|unit\n";
       continue;
     }
